@@ -790,7 +790,7 @@ pub fn check(ctx: &Ctx) -> Vec<PartReport> {
             require: vec![],
         },
     ));
-    let n = ctx.cases(1_000, 60_000);
+    let n = ctx.cases(3_000, 60_000);
     let nn = n as u64;
     out.push(run_part(
         ctx,
